@@ -393,9 +393,175 @@ fn in_crate_types() -> (u64, Vec<Found>) {
     (n, found)
 }
 
+/// The hand-written implementations in ethercrab-wire/src/impls.rs: primitives, bool, tuples,
+/// arrays, byte slices, heapless containers. Returns (cases evaluated, findings).
+fn builtin_impls() -> (u64, Vec<Found>) {
+    use ethercrab_wire::{EtherCrabWireRead, EtherCrabWireSized, EtherCrabWireWrite, EtherCrabWireWriteSized};
+    let mut found: Vec<Found> = Vec::new();
+    let mut n = 0u64;
+    let mut add = |clause: &str, ty: &str, msg: String| {
+        let sig = format!("{} [builtin {}]", clause, ty);
+        if !found.iter().any(|f| f.sig == sig) {
+            found.push(Found { sig, msg });
+        }
+    };
+    macro_rules! prim {
+        ($t:ty, $name:expr, $vals:expr) => {{
+            const W: usize = core::mem::size_of::<$t>();
+            for v in $vals {
+                n += 1;
+                let v: $t = v;
+                let want = v.to_le_bytes();
+                let r = guarded(|| {
+                    let packed = v.pack();
+                    let mut dirty = [0xa5u8; W + 2];
+                    let wrote = v.pack_to_slice(&mut dirty).map(|s| s.to_vec());
+                    let mut longer = want.to_vec();
+                    longer.extend_from_slice(&[0xee, 0xdd]);
+                    let back = <$t>::unpack_from_slice(&longer);
+                    let shorts: Vec<bool> = (0..W).map(|l| <$t>::unpack_from_slice(&longer[..l]) == Err(WireError::ReadBufferTooShort) && v.pack_to_slice(&mut vec![0u8; l]).is_err()).collect();
+                    (packed.as_ref().to_vec(), wrote, dirty, back, shorts, v.packed_len(), <$t as EtherCrabWireSized>::PACKED_LEN, <$t as EtherCrabWireSized>::buffer().as_ref().len())
+                });
+                match r {
+                    Err(p) => add("panic", $name, format!("{:?}: {}", v, p)),
+                    Ok((packed, wrote, dirty, back, shorts, plen, clen, blen)) => {
+                        if packed != want || wrote != Ok(want.to_vec()) || dirty[W..] != [0xa5, 0xa5] || plen != W || clen != W || blen != W {
+                            add("encode-wrong", $name, format!("{:?} packs as {:02x?} / {:?} (buffer {:02x?}, lengths {} {} {}), expected {:02x?}", v, packed, wrote, dirty, plen, clen, blen, want));
+                        }
+                        if back != Ok(v) {
+                            add("decode-wrong", $name, format!("{:02x?} decodes as {:?}, expected {:?}", want, back, v));
+                        }
+                        if shorts.iter().any(|ok| !ok) {
+                            add("short-buffer-wrong-error", $name, format!("{:?}: short source/destination handling {:?}", v, shorts));
+                        }
+                    }
+                }
+            }
+        }};
+    }
+    prim!(u8, "u8", (0..=255u8).collect::<Vec<_>>());
+    prim!(i8, "i8", (i8::MIN..=i8::MAX).collect::<Vec<_>>());
+    prim!(u16, "u16", (0..=u16::MAX).collect::<Vec<_>>());
+    prim!(i16, "i16", (i16::MIN..=i16::MAX).collect::<Vec<_>>());
+    prim!(u32, "u32", [0u32, 1, 0xff, 0x100, 0x0102_0304, 0x7fff_ffff, 0x8000_0000, u32::MAX].to_vec());
+    prim!(i32, "i32", [0i32, 1, -1, i32::MIN, i32::MAX, 0x0102_0304].to_vec());
+    prim!(u64, "u64", [0u64, 1, 0x0102_0304_0506_0708, 1 << 63, u64::MAX].to_vec());
+    prim!(i64, "i64", [0i64, -1, i64::MIN, i64::MAX, 0x0102_0304_0506_0708].to_vec());
+    // bool: ETG1000.6 5.2.2, 0xff / 0x00 on the wire, any non-zero byte reads as true
+    for b in 0..=255u8 {
+        n += 1;
+        if guarded(|| bool::unpack_from_slice(&[b, 7])) != Ok(Ok(b != 0)) {
+            add("decode-wrong", "bool", format!("byte {:#04x}", b));
+        }
+    }
+    if guarded(|| (true.pack(), false.pack(), bool::unpack_from_slice(&[]))) != Ok(([0xff], [0x00], Err(WireError::ReadBufferTooShort))) {
+        add("encode-wrong", "bool", "true/false do not pack as ff/00 or an empty buffer is accepted".into());
+    }
+    // tuples: members one after the other
+    {
+        n += 1;
+        let t = (0xaabb_ccddu32, 0x99u8, 0x1234u16, -2i16);
+        let want = [0xdd, 0xcc, 0xbb, 0xaa, 0x99, 0x34, 0x12, 0xfe, 0xff];
+        let r = guarded(|| {
+            let mut buf = [0xa5u8; 12];
+            let wrote = t.pack_to_slice(&mut buf).map(|s| s.to_vec());
+            let shorts: Vec<bool> = (0..want.len()).map(|l| t.pack_to_slice(&mut vec![0u8; l]) == Err(WireError::WriteBufferTooShort)).collect();
+            let back = <(u32, u8, u16, i16)>::unpack_from_slice(&want);
+            let back_short: Vec<bool> = (0..want.len()).map(|l| <(u32, u8, u16, i16)>::unpack_from_slice(&want[..l]).is_err()).collect();
+            (wrote, buf, shorts, back, back_short, t.packed_len())
+        });
+        match r {
+            Ok((wrote, buf, shorts, back, back_short, plen)) => {
+                if wrote != Ok(want.to_vec()) || buf[9..] != [0xa5; 3] || plen != 9 {
+                    add("encode-wrong", "tuple", format!("{:?} packs as {:?} (buffer {:02x?}, packed_len {})", t, wrote, buf, plen));
+                }
+                if back != Ok(t) {
+                    add("decode-wrong", "tuple", format!("{:02x?} decodes as {:?}", want, back));
+                }
+                if shorts.iter().any(|x| !x) || back_short.iter().any(|x| !x) {
+                    add("short-buffer-wrong-error", "tuple", format!("destination {:?} source {:?}", shorts, back_short));
+                }
+            }
+            Err(p) => add("panic", "tuple", p),
+        }
+    }
+    // arrays: [u8; N] both ways, [T; N] read
+    {
+        n += 1;
+        let r = guarded(|| {
+            let a = [1u8, 2, 3, 4, 5];
+            let mut buf = [0xa5u8; 7];
+            let wrote = a.pack_to_slice(&mut buf).map(|s| s.to_vec());
+            let short = a.pack_to_slice(&mut [0u8; 4]).is_err();
+            let back = <[u8; 5]>::unpack_from_slice(&[1, 2, 3, 4, 5, 6]);
+            let words = <[u16; 3]>::unpack_from_slice(&[1, 0, 2, 0, 0xff, 0xff, 9]);
+            let words_short: Vec<bool> = (0..6).map(|l| <[u16; 3]>::unpack_from_slice(&[1, 0, 2, 0, 3, 0][..l]) == Err(WireError::ReadBufferTooShort)).collect();
+            let signed = <[i32; 2]>::unpack_from_slice(&[0xff, 0xff, 0xff, 0xff, 1, 0, 0, 0]);
+            (wrote, buf, short, back, words, words_short, signed)
+        });
+        match r {
+            Ok((wrote, buf, short, back, words, words_short, signed)) => {
+                if wrote != Ok(vec![1, 2, 3, 4, 5]) || buf[5..] != [0xa5, 0xa5] || !short {
+                    add("encode-wrong", "[u8; N]", format!("{:?} buffer {:02x?} short refused {}", wrote, buf, short));
+                }
+                if back != Ok([1, 2, 3, 4, 5]) || words != Ok([1, 2, 0xffff]) || signed != Ok([-1, 1]) {
+                    add("decode-wrong", "[T; N]", format!("{:?} {:?} {:?}", back, words, signed));
+                }
+                if words_short.iter().any(|x| !x) {
+                    add("short-buffer-wrong-error", "[T; N]", format!("{:?}", words_short));
+                }
+            }
+            Err(p) => add("panic", "[T; N]", p),
+        }
+    }
+    // byte slices and references
+    {
+        n += 1;
+        let r = guarded(|| {
+            let s: &[u8] = &[9, 8, 7];
+            let mut buf = [0xa5u8; 5];
+            let wrote = s.pack_to_slice(&mut buf).map(|x| x.to_vec());
+            let short = s.pack_to_slice(&mut [0u8; 2]).is_err();
+            let by_ref = (&0x1234u16).pack_to_slice(&mut [0u8; 2]).map(|x| x.to_vec());
+            (wrote, buf, short, by_ref, s.packed_len())
+        });
+        if r != Ok((Ok(vec![9, 8, 7]), [9, 8, 7, 0xa5, 0xa5], true, Ok(vec![0x34, 0x12]), 3)) {
+            add("encode-wrong", "&[u8] / &T", format!("{:?}", r));
+        }
+    }
+    // heapless containers: every buffer length 0..=10
+    for len in 0..=10usize {
+        n += 1;
+        let bytes: Vec<u8> = (0..len as u8).map(|i| 0x41 + i).collect();
+        let r = guarded(|| (heapless::Vec::<u16, 4>::unpack_from_slice(&bytes), heapless::String::<8>::unpack_from_slice(&bytes), heapless::Vec::<u8, 4>::unpack_from_slice(&bytes)));
+        match r {
+            Ok((words, string, small)) => {
+                let want_words: Vec<u16> = bytes.chunks_exact(2).take(4).map(|c| u16::from_le_bytes([c[0], c[1]])).collect();
+                if words.as_ref().map(|v| v.to_vec()) != Ok(want_words.clone()) {
+                    add("decode-wrong", "heapless::Vec<u16, 4>", format!("{} bytes decode as {:?}, expected {:?}", len, words, want_words));
+                }
+                let want_small: Vec<u8> = bytes.iter().copied().take(4).collect();
+                if small.as_ref().map(|v| v.to_vec()) != Ok(want_small) {
+                    add("decode-wrong", "heapless::Vec<u8, 4>", format!("{} bytes decode as {:?}", len, small));
+                }
+                let ok = if len <= 8 { string.as_ref().map(|s| s.as_bytes().to_vec()) == Ok(bytes.clone()) } else { string.is_err() };
+                if !ok {
+                    add("decode-wrong", "heapless::String<8>", format!("{} bytes decode as {:?}", len, string));
+                }
+            }
+            Err(p) => add("panic", "heapless", p),
+        }
+    }
+    n += 1;
+    if !matches!(guarded(|| heapless::String::<8>::unpack_from_slice(&[0x41, 0xff, 0xfe])), Ok(Err(WireError::InvalidUtf8))) {
+        add("decode-wrong", "heapless::String<8>", "invalid UTF-8 is not reported as InvalidUtf8".into());
+    }
+    (n, found)
+}
+
 pub fn c19(tier: &Tier) -> Result<i32, String> {
     let mut rep = Report::new("C19", "exploration", tier);
-    rep.rule = "program domain: every struct/enum of the layout grammar of tools/gen_wire_types.py (all splits of a byte into <= 4 bit fields/gaps in both skip spellings, sub-byte enums and nested structs at every bit offset, all sequences of <= 2 of 17 whole-byte items and <= 3 of 8, 12-field structs, partial last byte, skip fields, repr(packed); enums over u8/u16/u32/i8/i16/i32 x 14 shapes: explicit, implicit, alternatives, default, catch-all and their combinations), compiled with the working tree's derive; value domain per type: product of per-field boundary alphabets (complete when <= cap, else all pairs + one-at-a-time over 3 backgrounds), every value of types <= 2 bytes; buffer domain: those patterns with undeclared bits 0/1/alternating, walking one/zero, every buffer of types <= 2 bytes, every shorter length, over-long with junk; oracle: generated reference construction by declared bit position; plus the five wire types reachable through ethercrab's public API (SubDeviceState, AlStatusCode: every value; SubDeviceIdentity, ObjectDescriptionListQuery, ObjectDescriptionListQueryCounts: every value / walking bits, short buffers) against layouts transcribed by hand from the ETG tables; non-trivial = every evaluation".into();
+    rep.rule = "program domain: every struct/enum of the layout grammar of tools/gen_wire_types.py (all splits of a byte into <= 4 bit fields/gaps in both skip spellings, sub-byte enums and nested structs at every bit offset, all sequences of <= 2 of 17 whole-byte items and <= 3 of 8, 12-field structs, partial last byte, skip fields, repr(packed); enums over u8/u16/u32/i8/i16/i32 x 14 shapes: explicit, implicit, alternatives, default, catch-all and their combinations), compiled with the working tree's derive; value domain per type: product of per-field boundary alphabets (complete when <= cap, else all pairs + one-at-a-time over 3 backgrounds), every value of types <= 2 bytes; buffer domain: those patterns with undeclared bits 0/1/alternating, walking one/zero, every buffer of types <= 2 bytes, every shorter length, over-long with junk; oracle: generated reference construction by declared bit position; plus the five wire types reachable through ethercrab's public API (SubDeviceState, AlStatusCode: every value; SubDeviceIdentity, ObjectDescriptionListQuery, ObjectDescriptionListQueryCounts: every value / walking bits, short buffers) against layouts transcribed by hand from the ETG tables; plus the hand-written impls of ethercrab-wire (every u8/i8/u16/i16 value, boundary u32/i32/u64/i64 values, bool, a 4-tuple, [u8; N], [u16; N], [i32; N], byte slices, references, heapless Vec/String over every buffer length 0..=10): layout, checked pack into short and long destinations, short sources; non-trivial = every evaluation".into();
     rep.assumptions = vec![
         "the reference computes bit positions from the declared widths and skips alone (Python generator), values are built by plain field construction, never through the derive".into(),
         "struct width <= 128 bits; f32/f64, generics and heapless containers are outside the generated domain".into(),
@@ -456,6 +622,9 @@ pub fn c19(tier: &Tier) -> Result<i32, String> {
     let (in_crate_n, in_crate_found) = in_crate_types();
     buffers += in_crate_n;
     all_found.extend(in_crate_found);
+    let (builtin_n, builtin_found) = builtin_impls();
+    values += builtin_n;
+    all_found.extend(builtin_found);
     all_found.sort_by(|a, b| a.sig.cmp(&b.sig));
     for f in &all_found {
         rep.violation(&f.sig, &f.msg, json!({"engine": "c19", "detail": f.msg}));
@@ -468,6 +637,7 @@ pub fn c19(tier: &Tier) -> Result<i32, String> {
     *rep.outcomes.entry("buffer decoded as declared".into()).or_insert(0) += buffers - undefined;
     *rep.outcomes.entry("undefined enum value rejected".into()).or_insert(0) += undefined;
     rep.extra.insert("types".into(), json!(cases.len()));
+    rep.extra.insert("builtin_impl_cases".into(), json!(builtin_n));
     rep.extra.insert("in_crate_types".into(), json!({"types": ["SubDeviceState", "AlStatusCode", "SubDeviceIdentity", "ObjectDescriptionListQuery", "ObjectDescriptionListQueryCounts"], "buffers": in_crate_n}));
     rep.extra.insert("types_with_complete_value_product".into(), json!(complete));
     rep.extra.insert(
